@@ -2,7 +2,7 @@
    Only the property theorems live here; each is closed by lemmas of IO/MidiFileProofs.v about the
    executable model IO/MidiFile.v (writer = MidiFileOutputDevice, reader = MidiFileInputDevice.read,
    call trace of a note/chord sequence).  Times are file ticks. *)
-From Isobar Require Import Base.Prelude IO.MidiFile IO.MidiFileProofs.
+From Isobar Require Import Base.Prelude IO.MidiFile IO.MidiFileProofs IO.ReaderHistory IO.ReaderHistoryProofs.
 
 (* ------------------------------------------------------------------------------------------ *)
 (** ** Reading any file *)
@@ -144,6 +144,66 @@ Theorem C16_expected_leading_rest : forall e r o,
 Proof. intros e r o H. cbn [sounding]. rewrite H. reflexivity. Qed.
 
 (* ------------------------------------------------------------------------------------------ *)
+(** ** Reader objects that outlive the file: histories `write m1; read; write m2; read ...`
+
+    A file system maps paths to file contents; reader objects are created once per path and used for any number of
+    reads, with any quantize values, while the files are rewritten (by isobar or anything else) or removed in between
+    (IO/ReaderHistory.v).  For ALL histories: *)
+
+(* the read that follows `count_reads pre` earlier reads returns the decoding — with its own quantize value — of the
+   file as it is after everything before it; None = no such file (FileNotFoundError) *)
+Theorem C16_history_read : forall f pre p q post,
+  nth_error (hist_run f (pre ++ HRead p q :: post)) (count_reads pre)
+  = Some (option_map (read_file_q q) (fs_after f pre p)).
+Proof. exact hist_read_spec. Qed.
+Print Assumptions C16_history_read.
+
+(* ... that is: of the LATEST write to its path, whatever was written before that write, whatever this or any other
+   reader object has read before (any number of times, any quantize), whatever happened to other paths *)
+Theorem C16_history_latest_write : forall f pre p c mid q post,
+  forallb (fun o => negb (touches p o)) mid = true ->
+  nth_error (hist_run f (pre ++ HWrite p c :: mid ++ HRead p q :: post)) (count_reads (pre ++ HWrite p c :: mid))
+  = Some (Some (read_file_q q c)).
+Proof. exact hist_read_latest_write. Qed.
+Print Assumptions C16_history_latest_write.
+
+Theorem C16_history_removed : forall f pre p mid q post,
+  forallb (fun o => negb (touches p o)) mid = true ->
+  nth_error (hist_run f (pre ++ HRemove p :: mid ++ HRead p q :: post)) (count_reads (pre ++ HRemove p :: mid))
+  = Some None.
+Proof. exact hist_read_after_remove. Qed.
+
+(* earlier reads play no role at all: deleting every read from the history before a read does not change its result *)
+Theorem C16_history_reads_irrelevant : forall f pre p q post,
+  nth_error (hist_run f (pre ++ HRead p q :: post)) (count_reads pre)
+  = Some (option_map (read_file_q q) (fs_after f (filter (fun o => negb (is_read o)) pre) p)).
+Proof. exact hist_read_independent_of_reads. Qed.
+Print Assumptions C16_history_reads_irrelevant.
+
+(* round trip through a history: isobar saved `es` to p, p was not touched since; the reader object of p — however old,
+   whatever it read before the save — reads back exactly `expected es` *)
+Theorem C16_history_roundtrip : forall f pre p es mid post,
+  events_ok es = true -> place_all es 0 <> [] ->
+  forallb (fun o => negb (touches p o)) mid = true ->
+  nth_error (hist_run f (pre ++ HSave p es :: mid ++ HRead p 0 :: post)) (count_reads (pre ++ HSave p es :: mid))
+  = Some (Some (ROk (expected es))).
+Proof. exact hist_roundtrip. Qed.
+Print Assumptions C16_history_roundtrip.
+
+(* read(quantize = q): without quantize it is the reader above; round() moves a value by at most q/2; music that
+   already lies on the grid is read unchanged *)
+Theorem C16_quantize : forall q,
+  (forall c, read_file_q 0 c = read_file c)
+  /\ (0 < q -> forall a, 2 * Z.abs (a - qz q a) <= q)
+  /\ (forall ms, Forall (on_grid q) (scan ms 0 []) -> read_track_q q ms = read_track ms).
+Proof.
+  intros q. split; [exact read_file_q_0 | split].
+  - intros Hq a. unfold qz. apply rhe_nearest. exact Hq.
+  - intros ms. apply read_track_q_on_grid.
+Qed.
+Print Assumptions C16_quantize.
+
+(* ------------------------------------------------------------------------------------------ *)
 (** ** Non-vacuity *)
 
 Definition ex_events : list event :=
@@ -174,3 +234,21 @@ Example C16_deltas_nonvacuous :
   write_file [OOn 60 100 0; OTick; OTick; OTick; OOff 60 0; OTick; OTick]
   = [(0, NoteOn 0 60 100); (3, NoteOff 0 60); (2, NoteOff 0 0)].
 Proof. vm_compute. reflexivity. Qed.
+
+(* one reader object (path 7) across two rewrites, a removal and three quantize values; a second path in between *)
+Example C16_history_nonvacuous :
+  let m1 := [[(0, NoteOn 0 60 64); (240, NoteOff 0 60); (240, NoteOn 0 62 50); (250, NoteOff 0 62)]] in
+  let m2 := [[(100, NoteOn 0 40 9); (130, NoteOn 0 40 0)]] in
+  hist_run fs_empty [HRead 7 0; HWrite 7 m1; HRead 7 0; HRead 7 240; HWrite 8 m2; HSave 7 ex_events; HRead 7 0; HRead 8 0;
+                     HWrite 7 m2; HRead 7 0; HRead 7 120; HRemove 7; HRead 7 0; HRead 8 120]
+  = [ None;
+      Some (ROk (mkR [One 60; One 62] [One 64; One 50] [One (240, 480); One (250, 250)] [480; 250]));
+      Some (ROk (mkR [One 60; One 62] [One 64; One 50] [One (240, 480); One (240, 240)] [480; 240]));
+      Some (ROk (expected ex_events));
+      Some (ROk (mkR [One 40] [One 9] [One (130, 130)] [130]));
+      Some (ROk (mkR [One 40] [One 9] [One (130, 130)] [130]));
+      Some (ROk (mkR [One 40] [One 9] [One (120, 120)] [120]));
+      None;
+      Some (ROk (mkR [One 40] [One 9] [One (120, 120)] [120])) ]
+  /\ rhe 5 2 = 2 /\ rhe 7 2 = 4 /\ rhe 360 240 = 2 /\ rhe 120 240 = 0.
+Proof. vm_compute. repeat split. Qed.
